@@ -30,6 +30,7 @@
 #include <errno.h>
 #include <stdio.h>
 #include <assert.h>
+#include <string.h>
 
 #include "avtp/Utils.h"
 #include "avtp/Defines.h"
@@ -63,8 +64,10 @@ uint64_t Avtp_GetField(const Avtp_FieldDescriptor_t* fieldDescriptors,
                 quadletShift = 32 - quadletBits;
             }
             uint32_t quadletMask = ((1ULL << quadletBits) - 1ULL) << quadletShift;
-            uint32_t* quadletPtr = (uint32_t*)(pdu + quadletId * 4);
-            uint32_t quadletHostOrder = Avtp_BeToCpu32(*quadletPtr);
+            uint8_t* quadletPtr = pdu + quadletId * 4;
+            uint32_t quadletRaw;
+            memcpy(&quadletRaw, quadletPtr, sizeof(quadletRaw));
+            uint32_t quadletHostOrder = Avtp_BeToCpu32(quadletRaw);
             uint32_t partialValue = (quadletHostOrder & quadletMask) >> quadletShift;
             result |= (uint64_t)(partialValue) << (fieldDescriptor->bits - processedBits - quadletBits);
 
@@ -95,10 +98,13 @@ void Avtp_SetField(const Avtp_FieldDescriptor_t* fieldDescriptors,
             }
             uint32_t partialValue = value >> (fieldDescriptor->bits - processedBits - quadletBits);
             uint32_t quadletMask = ((1ULL << quadletBits) - 1ULL) << quadletShift;
-            uint32_t* quadletPtr = (uint32_t*)(pdu + quadletId * 4);
-            uint32_t quadletHostOrder = Avtp_BeToCpu32(*quadletPtr);
+            uint8_t* quadletPtr = pdu + quadletId * 4;
+            uint32_t quadletRaw;
+            memcpy(&quadletRaw, quadletPtr, sizeof(quadletRaw));
+            uint32_t quadletHostOrder = Avtp_BeToCpu32(quadletRaw);
             quadletHostOrder = (quadletHostOrder & ~quadletMask) | ((partialValue << quadletShift) & quadletMask);
-            *quadletPtr = Avtp_CpuToBe32(quadletHostOrder);
+            quadletRaw = Avtp_CpuToBe32(quadletHostOrder);
+            memcpy(quadletPtr, &quadletRaw, sizeof(quadletRaw));
 
             quadletOffset += 1;
             processedBits += quadletBits;
